@@ -1,7 +1,3 @@
 module verif
 
 go 1.25
-
-require github.com/pointlander/peg v0.0.0
-
-replace github.com/pointlander/peg => /repo
